@@ -22,7 +22,8 @@ EXPLANATION = (
     "lock_provider.acquire() site; (R4) write-once names, shared with C09.R1."
     ' Also: (R3b) every retry loop around MetadataManager.commit rebuilds both arguments inside the iteration; (R7/R8) the local lock keeps its shape (non-blocking flock, the lock file is never unlinked in flock mode); (R9) an ambiguous failure is never retried as a clean conflict (handler order incl. class hierarchy).'
     ' (R10) nothing may raise out of commit() after the commit point (shared with C04.R2: a commit that raised is not reflected); (R11) success means committed: every normal exit of Transaction.commit() passed a commit-point call or is the empty-transaction return.'
-    ' (R12) who-may-delete census (shared with C09.R3): no unsanctioned deleter can remove files of an acknowledged commit; (R13) every handler an AmbiguousCommitError can flow into re-raises (an ambiguous commit is never retried).')
+    ' (R12) who-may-delete census (shared with C09.R3): no unsanctioned deleter can remove files of an acknowledged commit; (R13) every handler an AmbiguousCommitError can flow into re-raises (an ambiguous commit is never retried).'
+    ' R2 also requires every definition of the validated object to be a read under the lock (or None).')
 NOT_DECIDED = ("that flock / the S3 CAS lock actually excludes; the final-state-equals-serial-order statement "
                "over interleavings; linearity of the surviving chain at run time")
 
@@ -100,6 +101,7 @@ def commit_point_call(ctx: Ctx, f: FunctionInfo) -> Node:
     raise AnalysisError(f"no commit-point call in {f.qname}")
 
 
+_VAL_BAD: Dict[str, list] = {}
 _VAL_EXTRA: Dict[str, Tuple[List[Node], List[Node]]] = {}
 
 
@@ -219,10 +221,12 @@ def validation(ctx: Ctx, f: FunctionInfo) -> Tuple[Node, str, str, Dict[str, Nod
     defs = rd.reaching(b0.id, cur_name)
     reads = []
     none_defs = 0
+    none_nodes = []
     for d in defs:
         dn = g.nodes[d]
         if isinstance(dn.ast, (ast.Assign, ast.AnnAssign)) and isinstance(dn.ast.value, ast.Constant) and dn.ast.value.value is None:
             none_defs += 1  # `current = None` on the no-table branch
+            none_nodes.append(dn)
             continue
         if isinstance(dn.ast, (ast.Assign, ast.AnnAssign)) and isinstance(dn.ast.value, (ast.Call, ast.IfExp)):
             # the defining statement is the validation read, provided its value comes from a metadata read
@@ -230,9 +234,11 @@ def validation(ctx: Ctx, f: FunctionInfo) -> Tuple[Node, str, str, Dict[str, Nod
             if any(isinstance(c, ast.Call) and (dotted(c.func) or "").split(".")[-1] in
                    ("refresh", "_read_metadata_file", "read_json", "_current_version_info") for c in org["calls"]):
                 reads.append(dn)
-    if len(reads) + none_defs != len(defs) or not reads:
+    if not reads:
         raise AnalysisError("validation read (definition of the validated metadata) not found")
-    _VAL_EXTRA[f.qname] = (reads, [g.nodes[d] for d in defs if g.nodes[d] not in reads])
+    # a definition that is neither a read nor `None` (the caller's base re-used, a remembered object): reported by R2
+    _VAL_BAD[f.qname] = [g.nodes[d] for d in defs if g.nodes[d] not in reads and g.nodes[d] not in none_nodes]
+    _VAL_EXTRA[f.qname] = (reads, none_nodes)
     return reads[0], cur_name, base, fields
 
 
@@ -357,6 +363,10 @@ def r2(ctx: Ctx) -> None:
         ctx.ob("C01.R2", f, f"comparison of {fld} dominates the commit point", b, b is not None and w is None,
                f"no path from the validation read to the pointer flip avoids comparing {fld} while current metadata "
                f"exists (true-branch raises)", text=fld, witness=ctx.path_witness(f, w))
+    for bd in _VAL_BAD.get(f.qname, []):
+        ctx.ob("C01.R2", f, "the validated metadata is read under the lock on every path", bd, False,
+               f"`{bd.text[:80]}`: on this path the object the base is compared with is not a fresh read of the current version (the "
+               "caller's own base / a remembered object compares equal to itself): a stale base passes validation", text="validated-def")
     okdefs = {r_.id for r_ in all_reads} | {n_.id for n_ in none_defs}
     for fld, b in fields.items():
         ds = set(ctx.rd(f).reaching(b.id, cur))
